@@ -72,17 +72,6 @@ def build(repo):
     log = []
     f = src.fn(FILE, "compile", "impl Compile for WhileLoop")
 
-    def for_rule():
-        base = for_enumerate_into_iter("w", INV, pre_body=PRE, post_body=POST)
-        inner = base.repl
-
-        def repl(b):
-            v = text(b["v"])
-            out = inner(b)
-            return [x.replace("$V", v) if x.startswith("\x01") else x for x in out]
-        base.repl = repl
-        return base
-
     rules = [
         R_CONST_LOCAL, R12_RESERVE, R7_TRY_INTO_ISIZE, r_instruction(ids),
         Rule("R6", "self . condition . compile ( state )", "value_compile ( & self . condition , state )", count=1, why="child Value::compile abstract (arbitrary result)"),
@@ -91,7 +80,7 @@ def build(repo):
              ["let mut $v = block_compile ( $$a ) ? ;",
               G("let ghost c = condition_compiled@.len() as int; let ghost b = $v@.len() as int; let ghost body0 = $v@;\n"
                 "assume(condition_compiled.len() < 0x1000_0000 && $v.len() < 0x1000_0000);  // stated assumption: block lengths < 2^28")], count=1),
-        for_rule(),
+        for_enumerate_into_iter("w", INV, pre_body=PRE, post_body=POST),
         Rule("R11", "Ok ( $r )",
              [G("""proof {
     let out = $r@;
